@@ -1181,6 +1181,12 @@ func run20(r *mon.Run) {
 		args := []string{"-uri", uri, "-version", ver, "-status", fmt.Sprint(status), "-content", cp, "-certificate", m.certPEM, "-certUrl", "https://example.com/cert.cbor",
 			"-validityUrl", "https://example.com/resource.validity", "-privateKey", kf.path, "-miRecordSize", fmt.Sprint(rs), "-expire", "24h", "-o", out,
 			"-responseHeader", "X-Custom: value", "-responseHeader", "cache-control: max-age=100"}
+		// every fourth exchange has response fields given on several lines (the tool holds them as separate field lines, the
+		// file carries them comma-joined): a second Cache-Control line whose no-cache argument names a field that is present
+		repeated := s%4 == 1
+		if repeated {
+			args = append(args, "-responseHeader", `Cache-Control: no-cache="X-Session"`, "-responseHeader", "X-Session: abc", "-responseHeader", "X-Multi: one", "-responseHeader", "X-Multi: two")
+		}
 		reqHdr := ver != "1b3" && s%3 != 0
 		if reqHdr {
 			args = append(args, "-requestHeader", "Accept: */*", "-requestHeader", "x-req-flag: on", "-method", "GET")
@@ -1273,6 +1279,9 @@ func run20(r *mon.Run) {
 						}
 						if ex.Status != status {
 							bad = fmt.Sprintf("status %d in the file, -status %d", ex.Status, status)
+						}
+						if repeated && (ex.RespHeaders["x-multi"] != "one,two" || ex.RespHeaders["x-session"] != "abc" || ex.RespHeaders["cache-control"] != `max-age=100,no-cache="X-Session"`) {
+							bad = fmt.Sprintf("response fields given on several -responseHeader lines are not in the file comma-joined: %v", ex.RespHeaders)
 						}
 						if ex.RespHeaders["x-custom"] != "value" {
 							bad = "-responseHeader not present in the signed headers"
